@@ -3,7 +3,8 @@
 (* C31 - Symbol tables describe the final resolution.                      *)
 (*                                                                         *)
 (* One fixed small program contains a definition for every combination of  *)
-(*   file        m  main.o, s  second object, a  member of an archive      *)
+(*   file        m  main.o, s  second object, a  member of a regular        *)
+(*               archive, t  member of a thin archive (ar rcT)              *)
 (*   binding     GLOBAL, WEAK           (plus one LOCAL per file)          *)
 (*   visibility  DEFAULT, PROTECTED, HIDDEN, INTERNAL                      *)
 (*   e           named in the export list (--export-dynamic-symbol /       *)
@@ -45,7 +46,8 @@ Excls == {"none", "ALL", "byname"}
 VSs == {"none", "locals", "globstar"}
 Strips == {"none", "all", "debug", "discard-all"}
 
-FilesU == {"m", "s", "a"}
+FilesU == {"m", "s", "a", "t"}
+ArchiveKinds == {"a", "t"}
 Binds == {"GLOBAL", "WEAK"}
 Viss == {"DEFAULT", "PROTECTED", "HIDDEN", "INTERNAL"}
 
@@ -53,14 +55,16 @@ Viss == {"DEFAULT", "PROTECTED", "HIDDEN", "INTERNAL"}
    is only generated to symbols that may be exported at all: GNU ld rejects a link in which a DSO
    references a hidden/localised symbol of the output. *)
 Universe == {x \in [file : FilesU, bind : Binds, vis : Viss, e : {0, 1}, v : {0, 1}, r : {0, 1}] :
-                x.r = 1 => (x.vis \in {"DEFAULT", "PROTECTED"} /\ x.v = 0 /\ x.file # "a")}
+                x.r = 1 => (x.vis \in {"DEFAULT", "PROTECTED"} /\ x.v = 0 /\ x.file \notin ArchiveKinds)}
 
 -----------------------------------------------------------------------------
 (* Declarative rule *)
 
 Visible(x) == x.vis \in {"DEFAULT", "PROTECTED"}
 
-Excluded(x) == cfg.excl # "none" /\ x.file = "a"                 \* --exclude-libs ALL | libarc.a
+(* --exclude-libs ALL | --exclude-libs libarc.a:libthin.a : both archives are named, whatever their
+   flavour (GNU ld matches the archive's file name for thin archives too) *)
+Excluded(x) == cfg.excl # "none" /\ x.file \in ArchiveKinds
 VsLocal(x) == cfg.vs # "none" /\ x.v = 1                        \* `local:` entry (exact, or via `*`)
 Demoted(x) == Excluded(x) \/ VsLocal(x)
 
@@ -87,12 +91,14 @@ VisAllowed(x) == IF Visible(x) /\ ~Demoted(x) THEN {x.vis} ELSE {x.vis, "DEFAULT
 NeedsDynsym == TRUE          \* every configuration links a shared library, so the output is dynamic
 
 (* args/elf.rs should_export_dynamic(lib_name) = !exclude_libs.should_exclude(lib_name);
-   only consulted for inputs with archive semantics *)
-WExcluded(f) == f = "a" /\ cfg.excl # "none"
+   only consulted for inputs with archive semantics (regular archive entries, thin archive members).
+   lib_name of a thin archive member is the member's own file name (input_data.rs process_thin_archive
+   opens every member as a file of its own), so naming the thin archive does not match. *)
+WExcluded(f) == (f = "a" /\ cfg.excl # "none") \/ (f = "t" /\ cfg.excl = "ALL")
 
 (* layout.rs ObjectLayoutState::activate *)
 WExportAll(f) ==
-    \/ (cfg.kind = "shared" /\ (f # "a" \/ ~WExcluded(f)))
+    \/ (cfg.kind = "shared" /\ (f \notin ArchiveKinds \/ ~WExcluded(f)))
     \/ (NeedsDynsym /\ cfg.exp = "all")
 
 (* symbol_db.rs should_downgrade_to_local: version script says local *)
@@ -142,10 +148,14 @@ Dev(x) ==
     ELSE IF x \in dyn /\ x.vis = "INTERNAL" THEN "internal-visibility-exported"
     (* an --exclude-libs archive symbol is exported after all because of --export-dynamic, an
        export list entry or a reference from a shared library *)
+    ELSE IF x \in dyn /\ Excluded(x) /\ x.file = "t" /\ cfg.excl = "byname" /\ cfg.kind = "shared"
+            /\ cfg.exp # "all" /\ ~(ListGiven /\ x.e = 1)
+         THEN "exclude-libs-by-name-misses-thin-archive"
     ELSE IF x \in dyn /\ Excluded(x) THEN "exclude-libs-ignored-by-export-request"
     ELSE "unclassified"
 
-KnownDev == {"internal-visibility-exported", "exclude-libs-ignored-by-export-request"}
+KnownDev == {"internal-visibility-exported", "exclude-libs-ignored-by-export-request",
+             "exclude-libs-by-name-misses-thin-archive"}
 
 ConformsOrKnown == pc = "done" => \A x \in Universe : Dev(x) = "same" \/ Dev(x) \in KnownDev
 (* anti-vacuity: must be violated *)
